@@ -249,6 +249,8 @@ MemD == { Mem("", 0, 64, 0, -1, 0, "is", D(FALSE, <<16,0,0,0>>, "hex")), Mem("",
 C03_All(zz) ==
      { L3(mn, <<G(w, n), v>>) : mn \in Alu \cup {"test", "mov"}, w \in {8, 16, 32, 64}, n \in {0, 1, 9}, v \in ImmVals }
 \cup { L3("mov", <<G(64, n), v>>) : n \in {0, 3, 12}, v \in ImmVals16d }
+\* ... and with 13, 14, 15 digits: one and two short of "zero padded to 64 bits exactly" (SMART still narrows)
+\cup { L3("mov", <<G(64, n), Im(FALSE, m, "hex", dg)>>) : n \in {0, 12}, dg \in {13, 14, 15}, m \in {x \in ImmMags : x[5] = 0 /\ x[6] = 0 /\ x[7] = 0 /\ x[8] = 0} }
 \cup { L3("mov", <<G(64, n), Im(FALSE, m, "dec", dg)>>) : n \in {0, 12}, dg \in {17, 18, 19, 22}, m \in {x \in ImmMags : x[5] = 0 /\ x[6] = 0 /\ x[7] = 0 /\ x[8] = 0} }
 \cup { L3(mn, <<W(m, w, KW(w)), v>>) : mn \in Alu \cup {"test", "mov"}, w \in {8, 16, 32, 64}, m \in MemD, v \in ImmVals }
 \cup { L3("imul", <<G(w, 1), G(w, 9), v>>) : w \in {16, 32, 64}, v \in ImmVals }
@@ -266,6 +268,9 @@ ImK(kw, n) == [ImHex(n) EXCEPT !.kw = kw]
 M3(mn, opds) == Rec("C03", "MayReject", mn, opds)
 C03_Kw(zz) ==
      { M3(mn, <<G(w, n), ImK(IF kb THEN "byte" ELSE KW(w), v)>>) : mn \in Alu \cup {"test", "mov"}, w \in {16, 32, 64}, n \in {0, 1, 9}, kb \in BOOLEAN, v \in {5, 127} }
+\cup { M3(mn, <<G(w, n), [Im(neg, Small(v), "hex", 0) EXCEPT !.kw = kw]>>) : mn \in {"mov", "add", "cmp", "test", "and"}, w \in {32, 64}, n \in {0, 9},
+         kw \in {"byte", "word", "dword", "qword"}, neg \in BOOLEAN, v \in {1, 100} }
+\cup { M3(mn, <<G(64, 1), [Im(neg, Small(5), "hex", 0) EXCEPT !.kw = kw]>>) : mn \in Shifts, kw \in {"word", "dword", "qword"}, neg \in {FALSE} }
 \cup { M3(mn, <<W(m, w, KW(w)), ImK(IF kb THEN "byte" ELSE KW(w), 5)>>) : mn \in {"add", "cmp", "mov", "test"}, w \in {8, 32, 64}, m \in MemD, kb \in BOOLEAN }
 \cup { M3(mn, <<G(w, 1), ImK("byte", v)>>) : mn \in Shifts, w \in {16, 32, 64}, v \in {1, 5} }
 \cup { M3(mn, <<W(m, w, ""), ImK(KW(w), 5)>>) : mn \in {"add", "cmp", "mov", "test"}, w \in {8, 16, 32, 64}, m \in MemD }      \* (mov [rax], byte 5: the keyword sizes the store)
@@ -413,7 +418,9 @@ Fill(t, b) == [k \in 1..Len(t) |-> IF t[k] = "@" THEN b ELSE t[k]]
 TailRegs == { r \o t : r \in {"rbx", "ecx", "r10", "r9d", "dx", "cl", "xmm3", "ymm9", "mm2"}, t \in {"+1", "+rcx", "]", "*2", "-", "+", "-0x10", "+rcx*4", "]]", "["} }
 C10_Templ(zz) == { Raw("misspelt-register", Fill(t, b)) : t \in RegTemplates, b \in BadRegs2 }
             \cup { Raw("misspelt-register", Fill(t, b)) : t \in {x \in RegTemplates : \A k \in 1..Len(x) : x[k] # "["}, b \in TailRegs }
-BadMn == {"foo", "addd", "mo", "movv", "ad", "xorr", "jmpp", "nop12", "nop0", "vpaddz", "leaa", "pushq", "a", "zzz", "cmovxx", "setzz"}
+\* (the filter starts the mnemonic at the first character in 'A'..'z': that range also holds [ \ ] ^ _ `)
+BadMn == {"foo", "addd", "mo", "movv", "ad", "xorr", "jmpp", "nop12", "nop0", "vpaddz", "leaa", "pushq", "a", "zzz", "cmovxx", "setzz",
+          "_start", "_add", "__", "[rax]", "[", "]", "]add", "^add", "^", "`add`", "`", "\\add", "\\"}
 C10_Mn(zz) == { Raw("unknown-mnemonic", <<b, " ", "rax", ",", " ", "rcx">>) : b \in BadMn }
          \cup { Raw("unknown-mnemonic", <<b>>) : b \in BadMn } \cup { Raw("unknown-mnemonic", <<b, " ", "rax">>) : b \in BadMn }
 BadScales == {"0", "3", "5", "6", "7", "9", "10", "16"}
@@ -421,7 +428,12 @@ MemUsers == { <<"lea", " ", "rcx", ",", " ">>, <<"mov", " ", "rcx", ",", " ">>, 
               <<"paddb", " ", "xmm1", ",", " ">>, <<"vpaddb", " ", "ymm1", ",", " ", "ymm2", ",", " ">>, <<"inc", " ", "dword", " ">> }
 MemTail(u) == IF u[1] = "add" THEN <<",", " ", "rcx">> ELSE <<>>
 C10_Mem(zz) ==
-     { Raw("invalid-scale", u \o <<"[", "rax", "+", "rcx", "*", sc, "]">> \o MemTail(u)) : u \in MemUsers, sc \in BadScales }
+     \* a factor on both sides of the index register whose product is no scale (a product of 1, 2, 4, 8 is an address nasm accepts)
+     { Raw("invalid-scale", u \o <<"[", "rax", "+", p[1], "*", "rbx", "*", p[2], "]">> \o MemTail(u)) : u \in MemUsers,
+         p \in {<<"2", "3">>, <<"4", "3">>, <<"8", "3">>, <<"1", "3">>, <<"2", "8">>, <<"4", "4">>, <<"4", "8">>, <<"8", "2">>, <<"8", "4">>, <<"8", "8">>, <<"2", "5">>} }
+\cup { Raw("invalid-scale", u \o <<"[", s1, "*", "rbx", "*", "3", "]">> \o MemTail(u)) : u \in MemUsers, s1 \in {"2", "4"} }
+\cup { Raw("invalid-scale", u \o <<"[", "rax", "+", "rbx", "*", "2", "*", "3", "]">> \o MemTail(u)) : u \in MemUsers }
+\cup     { Raw("invalid-scale", u \o <<"[", "rax", "+", "rcx", "*", sc, "]">> \o MemTail(u)) : u \in MemUsers, sc \in BadScales }
 \cup { Raw("invalid-scale", u \o <<"[", "rax", "+", sc, "*", "rcx", "]">> \o MemTail(u)) : u \in MemUsers, sc \in BadScales }
 \cup { Raw("invalid-scale", u \o <<"[", sc, "*", "rcx", "]">> \o MemTail(u)) : u \in MemUsers, sc \in BadScales }
 \cup { Raw("invalid-scale", u \o <<"[", sc, "*", "rcx", "+", "0x10", "]">> \o MemTail(u)) : u \in MemUsers, sc \in BadScales }
